@@ -255,6 +255,7 @@ theorem typed_value (f : Field) (h : fieldOk f = true) (h5 : f.kind ≠ 5) :
     rw [hk, lstrip_rawVal f hne htrim]; exact lineSep_typed f hk h
 
 theorem rawVal_ne (f : Field) (h : fieldOk f = true) : (rawVal f).isEmpty = false := by
+  have h0 := h
   -- the first line or a continuation line is there
   unfold rawVal
   by_cases hne : f.first = []
@@ -271,10 +272,7 @@ theorem rawVal_ne (f : Field) (h : fieldOk f = true) : (rawVal f).isEmpty = fals
         | nil => exact absurd hc h1
         | cons l ls =>
           rw [hne]
-          have hl : tlineOk l = true := by
-            have := h.2.1
-            simp only [blockOk, Bool.and_eq_true, List.all_eq_true] at this
-            exact this.1.1 l (by rw [hc]; simp)
+          have hl : tlineOk l = true := formatted_conts_ok f hk h0 l (by rw [hc]; simp)
           have hr := (tline_facts l hl).rawNe
           cases hraw : rawLine l with
           | nil => exact absurd hraw hr
@@ -971,7 +969,7 @@ theorem files_valid (p : Dep5.Para) (hp : paraOk p = true) (hK : paraKind p = so
   unfold paraIsValid
   simp only [hq, wsValues, statementsOf, licenseOf, getField, hqf, lf, lc, ll, expectedFV, kf, kc, kl, Bool.not_false,
     Bool.true_or, Bool.and_true]
-  have hne1 : (splitChar ' ' ff.first ++ ff.conts.flatMap fun l => splitChar ' ' l.content).isEmpty = false := by
+  have hne1 : (splitChar ' ' ff.first ++ ff.conts.flatMap fun l => splitChar ' ' (itemText l)).isEmpty = false := by
     cases hs : splitChar ' ' ff.first with
     | nil => exact absurd hs (Py.splitChar_ne_nil ' ' ff.first)
     | cons a as => rfl
